@@ -74,6 +74,8 @@ func zzProbeTx(nonce uint64) *pb.BxhTransaction {
 // BoltVM, BoltStubImpl and SimpleLedger. If the receipt is FAILED nothing but the sender's
 // nonce and fee may have changed, nothing is announced as interchain delivery and the
 // executor's service cache is untouched.
+// (also C08: whatever the contract does and whatever the sender can pay, applyTx returns a receipt)
+// zz:also C08
 func ZZH_C07_probe() {
 	price := zz.BigInt("gasPrice")
 	zz.Assume(zz.BigLe(big.NewInt(0), price))
